@@ -298,6 +298,45 @@ fn affinity_case(cx: &mut Ctx, nshards: usize, nthreads: usize) {
     }
 }
 
+/// Two threads on one shard: one keeps updating an existing key, the other keeps inserting new keys into the
+/// full map (eviction on every put).  Every operation must return, every get must return a value put for that
+/// key, the map must stay within capacity.  The threads are abandoned if they do not finish in time.
+fn threads_case(cx: &mut Ctx, nshards: usize, iters: u64) {
+    let cell = "ConcurrentLruMap/threads";
+    cx.sum.eval(cell, &format!("threads {} {}", nshards, iters), true);
+    cx.sum.cell_status(cell, "S-only");
+    let cj = json!({"cell": "threads", "nshards": nshards, "iters": iters});
+    let m = match ConcurrentLruMap::<u64, u64>::with_config(cmap_config(0, 2 * nshards, nshards, 0)) { Ok(m) => Arc::new(m), Err(_) => return };
+    let (tx, rx) = std::sync::mpsc::channel::<Result<(), String>>();
+    for t in 0..2u64 {
+        let m = m.clone();
+        let tx = tx.clone();
+        std::thread::spawn(move || {
+            let r = guarded(|| -> Result<(), String> {
+                for i in 0..iters {
+                    let k = if t == 0 { 1 } else { 2 + i % 6 };
+                    m.put(k, k * 1_000_000 + i % 1000).map_err(|e| format!("put refused: {:?}", e))?;
+                    let g = 1 + (i * 7 + t) % 7;
+                    if let Some(v) = m.get(&g) { if v / 1_000_000 != g { return Err(format!("get({}) returned {}, a value put for key {}", g, v, v / 1_000_000)); } }
+                }
+                Ok(())
+            });
+            let _ = tx.send(match r { Ok(x) => x, Err(p) => Err(format!("panicked: {}", p)) });
+        });
+    }
+    let mut done = 0;
+    let deadline = std::time::Instant::now() + std::time::Duration::from_secs(4);
+    while done < 2 {
+        let left = deadline.saturating_duration_since(std::time::Instant::now());
+        match rx.recv_timeout(left) {
+            Ok(Ok(())) => done += 1,
+            Ok(Err(e)) => { cx.sum.fail(cell, Some("lru_map_concurrent_put_race"), cj, &e); return; }
+            Err(_) => { cx.sum.fail(cell, Some("lru_map_concurrent_put_deadlock"), cj, &format!("{} of 2 threads never returned from put/get ({} iterations each, 4 s)", 2 - done, iters)); return; }
+        }
+    }
+    if m.len() > 2 * nshards { cx.sum.fail(cell, Some("lru_map_concurrent_put_race"), cj, &format!("holds {} entries, capacity {}", m.len(), 2 * nshards)); }
+}
+
 fn gen_ops(r: &mut Rng, nkeys: u64, n: usize) -> Vec<Op> {
     let mut ops = vec![];
     let mut val = 100u64;
@@ -635,6 +674,7 @@ fn run_one(cx: &mut Ctx, c: &Value) {
         Some("lru") => lru_history(cx, u("cap") as usize, u("preset"), u("nkeys"), &parse_ops(&c["ops"]), true),
         Some("cmap") => cmap_history(cx, u("total") as usize, u("nshards") as usize, u("preset"), u("strategy"), u("nkeys"), &parse_ops(&c["ops"]), true),
         Some("affinity") => affinity_case(cx, u("nshards") as usize, u("nthreads") as usize),
+        Some("threads") => threads_case(cx, u("nshards") as usize, u("iters")),
         Some("pc") => {
             let files: Vec<(u64, u64)> = c["files"].as_array().map(|a| a.iter().map(|f| (f[0].as_u64().unwrap_or(0), f[1].as_u64().unwrap_or(0))).collect()).unwrap_or_default();
             if files.is_empty() { return; }
@@ -719,6 +759,8 @@ pub fn run(args: &Args) {
         cmap_history(&mut cx, total, nshards, rng.below(3), strat, nkeys, &ops, false);
     }
     for n in [1usize, 2, 4, 8] { affinity_case(&mut cx, n, 4); }
+    threads_case(&mut cx, 1, if th { 200_000 } else { 20_000 });
+    threads_case(&mut cx, 2, if th { 200_000 } else { 20_000 });
     // a configuration that must be refused
     cmap_history(&mut cx, 4, 3, 0, 0, 3, &[(1, 0, 1)], false);
     cmap_history(&mut cx, 1, 2, 0, 0, 3, &[(1, 0, 1)], false);
